@@ -9,11 +9,13 @@
                     on "exists" retry.  After success the cache position is reset (forces reload).
 -/
 import Zed.Model.StoreEngine
+import Zed.Generated.C12
 namespace Zed.Store
 
-/-- `journal.maxRetries` and the "more than 10 new entries" snapshot rule (store.go). -/
-def maxRetries : Nat := 10
-def snapEvery : Nat := 10
+/-- `journal.maxRetries` and the "more than N new entries" snapshot rule (store.go): regenerated
+    from the source on every check (T1, `Zed/Generated/C12.lean`). -/
+def maxRetries : Nat := Zed.Generated.C12.maxRetries
+def snapEvery : Nat := Zed.Generated.C12.snapEvery
 
 /-- The four mutating calls of `journal.Store` with their constraint and their entry. -/
 inductive JOp where
